@@ -14,7 +14,8 @@ META = {
         'failure -- no primitive dereferences the lazily built id index where it may still be None (after '
         'construction or slicing).  Overridden read-only mixins (__contains__, index, count, __iter__) must be the list operation on _row; answering from the id index is a violation (one row per id).  Not decided: lock-step comparison with a list as an execution.'
         ' Also (D1): a Grid.pop override is the mixin spelled out (read at index, delete at index); removal by value is a violation.'
-        ' Also (D1): explicit index range tests in the primitives equal the list rule -len <= i < len (decision table).'),
+        ' Also (D1): explicit index range tests in the primitives equal the list rule -len <= i < len (decision table).'
+        ' Also (D1): the store of __setitem__ is not conditional on comparing the old row with the new one; mapping overrides of the ordered maps (slice headers).'),
     'rule_text': 'obligations = 5 primitives + slice/number/else branches + mixin table + 2 refusal orders + one '
                  'nullness obligation per Grid method that touches _index',
     'trusted_base': ['collections.abc.MutableSequence mixin methods reduce to the five primitives '
@@ -26,5 +27,10 @@ def run(ctx):
     meths = _grid.grid_methods(ctx)
     _grid.delegation(ctx, meths, 'C14.D1')
     _grid.index_guards(ctx, meths, 'C14.D1')
+    _grid.setitem_unconditional(ctx, meths, 'C14.D1')
+    # a slice carries the parent's metadata and columns IN THEIR ORDER: Grid(...) rebuilds them through items() of the
+    # ordered maps (clause shared with C16.D5)
+    from . import c16
+    c16.mapping_overrides(ctx, ctx.model, rule='C14.D1')
     _grid.refuse_before_write(ctx, meths, 'C14.D2')
     _grid.nullness(ctx, meths, 'C14.D3')
